@@ -33,6 +33,7 @@ def main():
     a = ap.parse_args()
     pid = a.prop.upper()
     tier = "thorough" if a.tier.startswith("t") else "quick"
+    os.environ["VERIF_TIER"] = tier  # what the command line says wins (the correspondence budgets read it)
     mod = importlib.import_module(f"harness.props.{pid.lower()}")
     if a.replay:
         data = json.loads(Path(a.replay).read_text())
@@ -43,6 +44,12 @@ def main():
 
     def _alarm(signum, frame):
         print(f"[{pid}] watchdog: check exceeded its time budget (not a verdict)")
+        try:  # take the children along (pool workers, the native driver): nothing may be left running
+            import subprocess
+
+            subprocess.run(["pkill", "-KILL", "-P", str(os.getpid())], timeout=5)
+        except Exception:  # noqa: BLE001
+            pass
         os._exit(2)
 
     signal.signal(signal.SIGALRM, _alarm)
